@@ -319,11 +319,14 @@ def run(ctx: Ctx, tier: str) -> Result:
         res.fail(Finding("C17.NOPROC", sf.qname, "<has_metric_processor>", sf.loc(), "the metric action does not test for an active metric processor"))
     hp = p.func("deep.config.config_service.ConfigService.has_metric_processor")
     txt = term(ctx, hp, "self.has_metric_processor")
-    if "MetricProcessor" in txt and "is not None" in txt:
+    import re as _re17
+    if ("MetricProcessor" in txt and "is not None" in txt) or \
+            _re17.fullmatch(r"any\(\[?isinstance\((\w+), [\w.]*MetricProcessor\) for \1 in @self\._plugins\]?\)", txt):
         res.ok("C17.NOPROC", {"has_metric_processor": txt})
     else:
         res.fail(Finding("C17.NOPROC", hp.qname, txt, hp.loc(), "has_metric_processor is not `some plugin is a MetricProcessor`"))
     from .common import borrow
     borrow(ctx, res, tier, "c13", ("C13.ARGS",), "C17.DEFS", "the metric definitions a caller registered stay as given (name, namespace, labels are not written to: the same definition on another tracepoint means the same)")
     borrow(ctx, res, tier, "c10", ("C10.CONTAIN",), "C17.FAILED", "a failing expression yields the exception itself, which is no number: the value falls back to 1 (an error text that reads as a number would be reported as the value)")
+    borrow(ctx, res, tier, "c20", ("C20.LOAD",), "C17.NOPROC", "`a metric processor is active` is asked of the plugins loaded now: no answer remembered from an earlier plugin set")
     return res
